@@ -8,13 +8,16 @@
 //   path 3 ComponentIterator::add_local (module inside a component)
 //   path 4 FunctionModifier::add_locals (consecutive path-4 requests are one call; returns nothing)
 //   path 5 LocalFunction::add_local (module.functions.unwrap_local)
+// A built function is installed with finish_module / finish_component or, in a third of the module-level cases with a
+// function import, with replace_import_in_module (the import's type is (i64) -> (): one parameter, no result), and the
+// later additions then go to the function that replaced the import.
 // Observed: the returned ids, and the decoded parameter types + local groups of the function in the
 // encoded output; whether every *other* function still has the parameters and locals it had.
 use std::collections::HashMap;
 use std::panic::{catch_unwind, AssertUnwindSafe};
 use vharness::*;
 use wirm::ir::function::FunctionBuilder;
-use wirm::ir::id::{FunctionID, ModuleID};
+use wirm::ir::id::{FunctionID, ImportsID, ModuleID};
 use wirm::ir::types::Location;
 use wirm::iterator::component_iterator::ComponentIterator;
 use wirm::iterator::iterator_trait::Iterator;
@@ -150,6 +153,7 @@ struct LCase {
     builder: Option<(Vec<u32>, usize)>, // built function: (params, number of leading ops done through the builder)
     target: usize,              // local function position in mods[midx] (ignored for a built function)
     ops: Vec<(u32, u32)>,       // (path, type)
+    replace: bool,              // the built function replaces import 0 (FunctionBuilder::replace_import_in_module)
 }
 
 fn gen_case(r: &mut Rng) -> LCase {
@@ -159,7 +163,9 @@ fn gen_case(r: &mut Rng) -> LCase {
     let midx = r.below(nmods as u64) as usize;
     let target = r.below(mods[midx].funcs.len() as u64) as usize;
     let nops = r.range(1, 8) as usize;
-    let builder = if r.chance(3, 10) { Some(((0..r.below(4)).map(|_| gen_ty(r)).collect(), r.range(1, nops as u64) as usize)) } else { None };
+    let mut builder: Option<(Vec<u32>, usize)> = if r.chance(3, 10) { Some(((0..r.below(4)).map(|_| gen_ty(r)).collect(), r.range(1, nops as u64) as usize)) } else { None };
+    let replace = builder.is_some() && !in_comp && mods[midx].nimports >= 1 && r.chance(1, 3);
+    if replace { if let Some((ps, nb)) = &mut builder { *ps = vec![1]; *nb = (*nb).min(nops.saturating_sub(1)); } }   // the signature of the import; at least one later addition
     let later: Vec<u32> = if in_comp { vec![3, 3, 3, 1, 4, 5] } else { vec![1, 2, 2, 4, 5] };
     let mut ops: Vec<(u32, u32)> = vec![];
     let uniform_ty = if r.chance(1, 6) { Some(gen_ty(r)) } else { None };
@@ -169,7 +175,7 @@ fn gen_case(r: &mut Rng) -> LCase {
         let ty = match uniform_ty { Some(t) => t, None => if k > 0 && r.chance(1, 3) { ops[k - 1].1 } else { gen_ty(r) } };
         ops.push((path, ty));
     }
-    LCase { in_comp, mods, midx, builder, target, ops }
+    LCase { in_comp, mods, midx, builder, target, ops, replace }
 }
 
 enum Host<'a> { M(Module<'a>), C(Component<'a>) }
@@ -197,6 +203,7 @@ fn run_case(c: &LCase) -> Option<Obs> {
             let mut fb = FunctionBuilder::new(&ps, &[]);
             while k < *nb { ids.push(Some(*fb.add_local(tok_dt(c.ops[k].1)))); k += 1; }
             fid = match &mut host {
+                Host::M(m) if c.replace => { fb.replace_import_in_module(m, ImportsID(0)); 0 }
                 Host::M(m) => *fb.finish_module(m),
                 Host::C(comp) => *fb.finish_component(comp, ModuleID(c.midx as u32)),
             };
@@ -253,14 +260,17 @@ fn run_case(c: &LCase) -> Option<Obs> {
     let after = decode(&out)?;
     if after.len() != before.len() { return None; }
     let m = after.get(c.midx)?;
-    let (params, groups) = m.get(fid as usize)?.clone();
+    // the function that replaced import 0 is a local function now: it stands last in the index space, everything else moves up by one
+    let fpos = if c.replace { m.len().checked_sub(1)? } else { fid as usize };
+    let (params, groups) = m.get(fpos)?.clone();
     let mut others_same = true;
     for (mi, bm) in before.iter().enumerate() {
         for (fi, sig) in bm.iter().enumerate() {
+            if mi == c.midx && c.replace { if fi == 0 { continue; } if after[mi].get(fi - 1) != Some(sig) { others_same = false; } continue; }
             if mi == c.midx && fi == fid as usize { continue; }
             if after[mi].get(fi) != Some(sig) { others_same = false; }
         }
-        let extra = if mi == c.midx && c.builder.is_some() { 1 } else { 0 };
+        let extra = if mi == c.midx && c.builder.is_some() && !c.replace { 1 } else { 0 };
         if after[mi].len() != bm.len() + extra { others_same = false; }
     }
     Some(Obs { ids, params, groups, others_same })
@@ -289,13 +299,13 @@ fn main() {
         let desc = format!(
             "{} module#{} of {} {} params={:?} groups(count,type)={:?} ops(path,type)={:?} => {}",
             if c.in_comp { "component" } else { "module" }, c.midx, c.mods.len(),
-            match &c.builder { Some((_, nb)) => format!("built function ({} additions before finish)", nb), None => format!("local function #{} (imports={})", c.target, c.mods[c.midx].nimports) },
+            match &c.builder { Some((_, nb)) => format!("built function ({} additions before {})", nb, if c.replace { "replace_import_in_module" } else { "finish" }), None => format!("local function #{} (imports={})", c.target, c.mods[c.midx].nimports) },
             params, groups, c.ops,
             match &o { None => "PANIC/undecodable".to_string(), Some(o) => format!("ids={:?} params={:?} groups={:?} others_same={}", o.ids, o.params, o.groups, o.others_same) }
         );
         let mut tags = vec![
             format!("host={}", if c.in_comp { "component" } else { "module" }),
-            format!("start={}", if c.builder.is_some() { "builder" } else { "parsed" }),
+            format!("start={}", if c.replace { "builder_replacing_import" } else if c.builder.is_some() { "builder" } else { "parsed" }),
             format!("n_ops={}", c.ops.len()), format!("n_groups={}", groups.len()), format!("n_params={}", params.len()),
             format!("obs={}", if o.is_some() { "encoded" } else { "panicked" }),
         ];
